@@ -125,6 +125,11 @@ def crash_class(m):
         f = os.path.basename(f)
         f = "resume-file" + f[len("nested_sampler_resume.pkl"):] if f.startswith("nested_sampler_resume.pkl") else f
         return f"{what}:before-{e}({f})"
+    if m["kind"] == "after_event":
+        e, f, mode = m["event"]
+        f = os.path.basename(f)
+        f = "resume-file" + f[len("nested_sampler_resume.pkl"):] if f.startswith("nested_sampler_resume.pkl") else f
+        return f"{what}:after-{e}({f})"
     if m["kind"] == "prefix":
         return f"{what}:torn-temp-file"
     return f"{what}:torn-weights-file"
@@ -287,7 +292,7 @@ def main():
                "a forked child that really dies there; each resulting directory is resumed by a fresh process which must load the previous or the new checkpoint (digest-equal, "
                "never torn), continue sampling (>= 50 iterations quick, to completion thorough) under the C01/C03/C05 monitors, or start afresh if no checkpoint had completed. "
                "Every crash point is non-trivial; distinct by (driver, crash point).",
-               require_observed=["crash_points_resumed", "crash_points_checkpoint", "crash_points_weights", "crash_kind_prefix", "crash_kind_torch_prefix", "crash_kind_before_event"])
+               require_observed=["crash_points_resumed", "crash_points_checkpoint", "crash_points_weights", "crash_kind_prefix", "crash_kind_torch_prefix", "crash_kind_before_event", "crash_kind_after_event"])
 
 
 if __name__ == "__main__":
